@@ -670,3 +670,65 @@ func TestVerifToFileCorr(t *testing.T) {
 	}
 	fmt.Printf("ORACLE-DONE cases=%d fins_checked=%d\n", n, fins)
 }
+
+// TestVerifToFileGiveUp (parent binary, real clock): the tool as shipped = FileLogger + go-nsq Consumer with the
+// configuration main() builds (nsq.NewConfig(): max_attempts 5). A source stub delivers one message with a given
+// attempts count; is it written before it is finished?
+func TestVerifToFileGiveUp(t *testing.T) {
+	if os.Getenv("VF_E8_CASE") != "" {
+		t.Skip("parent only")
+	}
+	for _, attempts := range []uint16{1, 5, 6, 9} {
+		root := t.TempDir()
+		src := vfNewStubNsqd()
+		opts := NewOptions()
+		opts.OutputDir = root
+		opts.WorkDir = root
+		opts.NSQDTCPAddrs = []string{src.addr}
+		opts.SyncInterval = 20 * time.Millisecond
+		opts.HostIdentifier = "h"
+		cfg := nsq.NewConfig() // as in main()
+		cfg.MaxInFlight = opts.MaxInFlight
+		f, err := NewFileLogger(func(lvl lg.LogLevel, f string, args ...interface{}) {}, opts, "t", cfg)
+		if err != nil {
+			t.Fatal(err)
+		}
+		f.consumer.SetLoggerLevel(nsq.LogLevelMax)
+		done := make(chan struct{})
+		go func() {
+			f.router()
+			close(done)
+		}()
+		for i := 0; i < 500 && !src.Subscribed(); i++ {
+			time.Sleep(2 * time.Millisecond)
+		}
+		body := []byte(fmt.Sprintf("giveup-%d", attempts))
+		src.Deliver("0123456789abcdef", attempts, body)
+		resp := "none"
+		select {
+		case resp = <-src.Resp:
+		case <-time.After(10 * time.Second):
+		}
+		written := vfE8HasLine(vfE8Tree2(root), append(body, '\n'))
+		fmt.Printf("GIVEUP tool=nsq_to_file max_attempts=%d attempts=%d written_at_response=%v response=%s\n",
+			cfg.MaxAttempts, attempts, written, strings.Fields(resp)[0])
+		close(f.termChan)
+		select {
+		case <-done:
+		case <-time.After(5 * time.Second):
+		}
+		src.Down()
+	}
+}
+
+func vfE8Tree2(root string) map[string][]byte {
+	res := map[string][]byte{}
+	filepath.Walk(root, func(p string, fi os.FileInfo, err error) error {
+		if err == nil && !fi.IsDir() {
+			raw, _ := os.ReadFile(p)
+			res[p] = raw
+		}
+		return nil
+	})
+	return res
+}
